@@ -26,7 +26,8 @@ RULE = ("operation histories (10-400 ops: single inserts, bulk inserts of 1-250 
         "order), never go backwards, equal the current state at the return of bucket-level ops (and of every op on "
         "peewee), and on sqlite miss at most 64 issued event writes. Real-crash tier: child processes run the same "
         "histories and are SIGKILLed at a chosen statement (or _exit / exit without shutdown / killed by the parent "
-        "after a random delay); the reopened file is judged the same way. evaluations = crash points decided; "
+        "after a random delay), some with megabytes of event data still uncommitted; the reopened file must pass SQLite's "
+        "integrity check and is judged the same way. evaluations = crash points decided; "
         "non-trivial = a crash point with a non-empty uncommitted tail; signature = (backend, tier, op kind in "
         "progress, statement kind, uncommitted-count bucket)")
 ASSUMPTIONS = ["process death only (SIGKILL, _exit, exit without shutdown); power loss / OS crash is not modelled",
@@ -152,6 +153,24 @@ def gen_case(rng, ctx):
     if n_gen < 2:
         # every run starts with 32 storms (16 workers x 2) that cover each write kind four times on the lazy store
         return dict(kind="inproc", backend="sqlite", ops=storm(rng, STORM_KINDS[(2 * ctx.widx + n_gen) % len(STORM_KINDS)]))
+    if n_gen == 2 and ctx.widx % 2 == 0:
+        # a real crash with megabytes of event data still uncommitted (fewer than 50 buffered writes, but far more than
+        # SQLite's page cache holds): whatever has reached the file by then must still be undone by the recovery
+        big = "x" * rng.choice([120_000, 200_000])
+        n0 = 5 * 10**6
+        ops = [dict(op="create_bucket", b="b0"),
+               dict(op="bulk", b="b0", evs=[dict(ts=10**15 + i * 1000, dur=1000, data={"uid": n0 + i}) for i in range(200)]),
+               dict(op="read", b="b0", how="count")]
+        for i in range(rng.randrange(30, 48)):
+            k = rng.random()
+            if k < 0.6:
+                ops.append(dict(op="insert", b="b0", ev=dict(ts=10**15 + i, dur=0, data={"uid": 2 * n0 + i, "payload": big})))
+            elif k < 0.8:
+                ops.append(dict(op="delete", b="b0", pick=rng.randrange(1000)))
+            else:
+                ops.append(dict(op="replace", b="b0", pick=rng.randrange(1000), ev=dict(ts=10**15 + i, dur=5, data={"uid": 3 * n0 + i, "payload": big})))
+        return dict(kind="real", backend="sqlite" if ctx.widx % 4 == 0 else "peewee", ops=ops, mode=rng.choice(["_exit", "sigkill"]),
+                    every=False, k=len(ops) - 1, delay_us=0, big=True)
     backend = "sqlite" if rng.random() < 0.65 else "peewee"
     r = rng.random()
     if r < (0.3 if ctx.tier == "quick" else 0.3):
@@ -400,7 +419,10 @@ def run_child(case, mode, k, delay_us, ctx):
     path = os.path.join(ctx.tmp, f"c06-real-{os.getpid()}-{int(time.monotonic() * 1e6) % 10**9}.db")
     jpath = path + ".journal.txt"
     args = dict(backend=case["backend"], ops=case["ops"], path=path, journal=jpath, mode=mode, k=k)
-    p = subprocess.Popen([sys.executable, "-m", "awverif.crash_child", json.dumps(args)],
+    apath = path + ".args.json"          # histories can carry megabytes of payload: too long for an argument list
+    with open(apath, "w") as f:
+        json.dump(args, f)
+    p = subprocess.Popen([sys.executable, "-m", "awverif.crash_child", "@" + apath],
                          stdout=subprocess.DEVNULL, stderr=subprocess.PIPE)
     if mode == "parentkill":
         # wait until the child has started executing the history, then kill after a random delay
@@ -446,9 +468,13 @@ def judge_real(case, pos, op_meta, entries, path, ctx, mode):
     try:
         conn = sqlite3.connect(path, timeout=2)
         state = decode(conn, backend)[0]
+        integrity = [r[0] for r in conn.execute(f"PRAGMA {MARK} integrity_check")]
         conn.close()
     except sqlite3.Error as ex:
         return [(f"{backend}:database-unreadable-after-crash", f"{where}: {ex}")]
+    ctx.count("integrity_checks_after_crash")
+    if integrity != ["ok"]:
+        return [(f"{backend}:database-corrupt-after-crash", f"{where}: integrity_check says {integrity[:3]}")]
     # 2. reopen through the store's own constructor
     try:
         hr = HistoryRunner(backend, path, ctx.tmp)
@@ -508,7 +534,9 @@ def run_case(case, ctx):
     pos, observations, op_meta = reference_run(case, ctx, observe=False)
     nstmt = sum(1 for o in observations if o[4] == "stmt")
     mode = case["mode"]
-    if mode == "sigkill":
+    if case.get("big"):
+        ks = [nstmt] if mode == "sigkill" else [len(case["ops"]) - 1]
+    elif mode == "sigkill":
         ks = list(range(1, nstmt + 1)) if case["every"] else sorted({1 + (case["k"] * (i + 1) * 7919) % max(1, nstmt) for i in range(3)})
     elif mode in ("_exit", "exit"):
         nops = len(case["ops"])
@@ -530,10 +558,11 @@ def run_case(case, ctx):
             done += 1
         finally:
             remove_db(path)
-            try:
-                os.unlink(jpath)
-            except FileNotFoundError:
-                pass
+            for extra in (jpath, path + ".args.json"):
+                try:
+                    os.unlink(extra)
+                except FileNotFoundError:
+                    pass
         if viols:
             break
     return viols, dict(sig=None, nontrivial=True, weight=max(1, done), nontrivial_weight=done,
